@@ -430,6 +430,13 @@ pub fn run_case(cx: &mut Ctx, scope: &str, quil: &str, sel: &BTreeSet<String>) -
             return false;
         }
     };
+    run_program(cx, scope, &desc, program, sel);
+    true
+}
+
+/// Run both entry points on an already built program and print the case.
+pub fn run_program(cx: &mut Ctx, scope: &str, desc: &str, program: Program, sel: &BTreeSet<String>) -> bool {
+    let desc = desc.to_string();
     let filter = |n: &str| sel.contains(n);
 
     let p1 = program.clone();
@@ -670,7 +677,9 @@ fn scope_e1(cx: &mut Ctx, thorough: bool) {
                     for (pi, p) in programs.iter().enumerate() {
                         // thorough: every combination; quick: every combination of definitions
                         // and filters, with the program rotating
-                        if !thorough && (ia + ib + ic + fi) % programs.len() != pi {
+                        // (thorough: two of the four programs, rotating)
+                        let r = ia + ib + ic + fi;
+                        if (!thorough && r % programs.len() != pi) || (thorough && r % 2 != pi % 2) {
                             continue;
                         }
                         run_case(cx, "E1", &format!("{defs}{p}"), f);
@@ -887,6 +896,84 @@ fn scope_random(cx: &mut Ctx, rng: &mut Rng, count: usize) {
     }
 }
 
+/// Scope A -- programs the grammar cannot express, built through the API on top of the E2 library:
+/// placeholder qubit arguments (non-fixed), the FORKED modifier, a body that is only such a gate.
+fn scope_api(cx: &mut Ctx) {
+    use quil_rs::instruction::QubitPlaceholder;
+    let head = format!("{PRELUDE}{MATRIX_DEF}{PERM_DEF}{E2_LIB}");
+    let num = |x: f64| Expression::Number(num_complex::Complex64::new(x, 0.0));
+    let variants: Vec<(&str, Gate)> = vec![
+        (
+            "sa(0.5) <placeholder>",
+            Gate { name: "sa".into(), parameters: vec![num(0.5)], qubits: vec![Qubit::Placeholder(QubitPlaceholder::default())], modifiers: vec![] },
+        ),
+        (
+            "sb(1, 2) 0 <placeholder>",
+            Gate { name: "sb".into(), parameters: vec![num(1.0), num(2.0)], qubits: vec![Qubit::Fixed(0), Qubit::Placeholder(QubitPlaceholder::default())], modifiers: vec![] },
+        ),
+        (
+            "FORKED sa(0.5, 0.25) 1 0",
+            Gate { name: "sa".into(), parameters: vec![num(0.5), num(0.25)], qubits: vec![Qubit::Fixed(1), Qubit::Fixed(0)], modifiers: vec![GateModifier::Forked] },
+        ),
+        (
+            "FORKED DAGGER sa(0.5) 1 0",
+            Gate { name: "sa".into(), parameters: vec![num(0.5)], qubits: vec![Qubit::Fixed(1), Qubit::Fixed(0)], modifiers: vec![GateModifier::Forked, GateModifier::Dagger] },
+        ),
+        (
+            "mg <placeholder>",
+            Gate { name: "mg".into(), parameters: vec![], qubits: vec![Qubit::Placeholder(QubitPlaceholder::default())], modifiers: vec![] },
+        ),
+    ];
+    for (what, gate) in &variants {
+        for pre in ["", "sa(0.5) 0\n", "MEASURE 0 ro[0]\nsc 2\n"] {
+            for f in subsets(&["sa", "sb", "sc"]) {
+                let mut f = f.clone();
+                f.insert("sd".into());
+                let text = format!("{head}{pre}");
+                let mut program = Program::from_str(&text).expect("API scope text parses");
+                program.add_instruction(Instruction::Gate(gate.clone()));
+                let desc = format!(
+                    "select={{{}}} program={} +api-appended-gate: {}",
+                    selected_desc(&f),
+                    text,
+                    what
+                );
+                run_program(cx, "A", &desc, program, &f);
+            }
+        }
+    }
+}
+
+/// `--replay`: show what the implementation does on one case.
+fn replay_print(quil: &str, sel: &BTreeSet<String>) {
+    let program = match Program::from_str(quil) {
+        Ok(p) => p,
+        Err(e) => {
+            println!("the program does not parse: {e}");
+            return;
+        }
+    };
+    let filter = |n: &str| sel.contains(n);
+    println!("--- filter selects: {:?}", sel);
+    match program.clone().expand_defgate_sequences(filter) {
+        Ok(p) => println!(
+            "--- expand_defgate_sequences: kept definitions {:?}; program:\n{}",
+            p.gate_definitions.keys().collect::<Vec<_>>(),
+            p.to_quil_or_debug()
+        ),
+        Err(e) => println!("--- expand_defgate_sequences: error {e:?}"),
+    }
+    match program.expand_defgate_sequences_with_source_map(filter) {
+        Ok((p, m)) => println!(
+            "--- expand_defgate_sequences_with_source_map: kept definitions {:?}; body:\n{}\n--- source map: {:?}",
+            p.gate_definitions.keys().collect::<Vec<_>>(),
+            p.body_instructions().map(|i| i.to_quil_or_debug()).collect::<Vec<_>>().join("\n"),
+            observe_map(&m)
+        ),
+        Err(e) => println!("--- expand_defgate_sequences_with_source_map: error {e:?}"),
+    }
+}
+
 pub fn main_with(mode: Mode) {
     let args = Args::parse();
     let header = "From Coq Require Import List BinNat.\nFrom QV Require Import Model.SeqExpand.\nImport ListNotations.\nOpen Scope N_scope.";
@@ -909,6 +996,8 @@ pub fn main_with(mode: Mode) {
         let names = selpart.trim_start_matches("select={").trim_end_matches('}');
         let sel: BTreeSet<String> =
             names.split(',').filter(|s| !s.is_empty()).map(|s| s.to_string()).collect();
+        let prog = prog.split(" +api-appended-gate: ").next().unwrap();
+        replay_print(prog, &sel);
         run_case(&mut cx, "replay", prog, &sel);
         cx.run.finish("replay of one case", false, serde_json::json!({}));
         return;
@@ -922,13 +1011,15 @@ pub fn main_with(mode: Mode) {
     let nrand = if thorough { 40000 } else { 4000 };
     scope_random(&mut cx, &mut rng, nrand);
     let rnd = cx.run.evaluations - e1 - e2;
+    scope_api(&mut cx);
     cx.run.finish(
         "E1 (exhaustive): definitions sa(%p) q / sb(%p,%t) q r / sc q whose bodies are all lists (length <= 2, \
          quick tier <= 2/1/1) over {primitive, call sa, call sb, call sc} x all 8 filters x 4 programs (quick: \
          program rotating), plus all two-definition systems with bodies <= 2 x 4 filters x 2 programs. \
          E2 (exhaustive): a fixed library of good and ill-formed-when-expanded definitions, program bodies = \
          all lists (length <= 2 quick / 3 thorough) over 18 good and bad invocations and non-gate instructions \
-         x filters over 6 names. R: seeded random systems (<= 5 definitions, bodies <= 4, programs <= 6). \
+         x filters over 6 names. R: seeded random systems (<= 5 definitions, bodies <= 4, programs <= 6). A: API-built programs \
+         (placeholder qubit arguments, FORKED modifiers) on the E2 library. \
          Distinct by (filter, program text); non-trivial = the expansion changed the body or reported an error.",
         true,
         serde_json::json!({"E1_cases": e1, "E2_cases": e2, "random_cases": rnd}),
